@@ -1,5 +1,61 @@
-import CddVerif.Model.IfaceDomain
-/-! # C02 — (work in progress) -/
+import CddVerif.Proofs.Iface
+/-!
+# C02 — class, pydantic, function and argparse emit → render → parse round trip
+
+`emit f` then `Top.reparse` (rendering to source text and re-reading: CPython, modelled) then `parse f`, for an
+arbitrary environment `env : Iface.Env` — the docstring layer of property C01 (`docEmit`, `docParse`,
+`extractDefault`, `adhocTyp`) and CPython's expression parser (`pyExpr`) are parameters.  The hypotheses are explicit:
+
+* `EnvOK env` — the one CPython fact used: a source wrapped in backticks does not parse;
+* `docHyp env f cfg ir = true` — the docstring layer's round trip on this interface (decidable; `Model/IfaceDomain.lean`):
+  what `docParse` returns for the docstring `docEmit` produced has the same entries in the same order, the same
+  descriptions up to the view's normalisation, announces no default and triggers no ad-hoc type, and carries the emitted
+  type / default wherever the format has no other carrier;
+* `inD02 env f cfg ir = true` — the interface lies in the region where format `f` applies the statement's
+  normalisations *only* (decidable; every clause that is narrower than the statement is matched by a negation below).
+
+`norm f` is exactly the statement's per-format normalisation.
+-/
 namespace C02
 open Iface
+
+/-- **The statement's normalisations, nothing else:** a function parameter without default is shown as `=None`;
+    argparse keeps a return entry only when it has a default value. -/
+def norm (f : Format) (ir : IR) : IR :=
+  match f with
+  | .class_ | .pydantic => ir
+  | .function =>
+    { ir with params := ir.params.map (fun kv => (kv.1, if kv.2.default.isNone then { kv.2 with default := some (.val (.str NoneStr)) } else kv.2)) }
+  | .argparse => { ir with returns := ir.returns.bind (fun r => if r.default.isSome then some r else none) }
+
+/-- emit, render + re-read, parse, view -/
+def roundTrip (env : Env) (f : Format) (cfg : Cfg) (ir : IR) : Except String (List PV × Option PV) := do
+  let t ← emit env f cfg ir
+  let ir' ← parse env f t.reparse
+  pure ir'.view
+
+/-- signature-legal interface descriptions: typed parameters with distinct names whose defaults form a suffix -/
+def Legal (ir : IR) : Prop := namesOk ir = true ∧ defaultsSuffix ir.params = true
+
+/-- **The full statement** (for one environment): every signature-legal interface, every format and configuration —
+    under the docstring layer's own round trip — comes back as `norm f ir`.  It does NOT hold of the unchanged code
+    (negations below); `C02_class`, `C02_pydantic`, `C02_function`, `C02_argparse` prove it on `inD02`. -/
+def C02_full (env : Env) : Prop :=
+  ∀ f cfg ir, Legal ir → docHyp env f cfg ir = true → roundTrip env f cfg ir = .ok (norm f ir).view
+
+/-- **Class (partial: on `inD02`).** names, order, types, typed defaults and descriptions of every attribute and of the
+    return entry survive `class_` emit → source → `class_` parse, for every number of attributes. -/
+theorem C02_class (env : Env) (hEnv : EnvOK env) (cfg : Cfg) (ir : IR)
+    (hD : inD02 env .class_ cfg ir = true) (hH : docHyp env .class_ cfg ir = true) :
+    roundTrip env .class_ cfg ir = .ok (norm .class_ ir).view := by
+  have := class_roundtrip env hEnv false { cfg with classBases := ["object"] } ir hD hH
+  simpa [roundTrip, emit, parse, norm, classRoundTrip] using this
+
+/-- **Pydantic (partial: on `inD02`).** the same through `pydantic` emit (`BaseModel` base) and parse (`infer_type=True`). -/
+theorem C02_pydantic (env : Env) (hEnv : EnvOK env) (cfg : Cfg) (ir : IR)
+    (hD : inD02 env .pydantic cfg ir = true) (hH : docHyp env .pydantic cfg ir = true) :
+    roundTrip env .pydantic cfg ir = .ok (norm .pydantic ir).view := by
+  have := class_roundtrip env hEnv true { cfg with classBases := ["BaseModel"] } ir hD hH
+  simpa [roundTrip, emit, parse, norm, classRoundTrip] using this
+
 end C02
